@@ -431,6 +431,20 @@ def native_s2v_cases(rng, n):
     return bad
 
 
+def native_gains_of_a_channel_subset(rng):
+    """a recording that saved channels 100:199 (+ sync) of a probe whose IMRO table (one entry per channel of the probe) holds other gains on other channels:
+    saved channel j is probe channel 100 + j"""
+    ga = rng.choice([50, 125, 250, 500, 1000, 1500, 2000, 3000], 384)
+    gl = rng.choice([50, 125, 250, 500, 1000], 384)
+    imro = "(0,384)" + "".join(f"({i} 0 0 {ga[i]} {gl[i]} 1)" for i in range(384))
+    md = {"typeThis": "imec", "imAiRangeMax": 0.6, "imMaxInt": 512.0, "nSavedChans": 101.0, "imroTbl": imro, "snsApLfSy": [100.0, 0.0, 1.0], "imSampRate": 30000.0,
+          "imDatPrb_type": 0.0, "imDatPrb_port": 1.0, "imDatPrb_slot": 2.0, "snsSaveChanSubset": "100:199,768"}
+    out = spikeglx._conversion_sample2v_from_meta(md)
+    want = np.r_[0.6 / 512 / ga[100:200].astype(float), 1.0]
+    return out["ap"].shape == want.shape and bool(np.allclose(out["ap"], want, rtol=1e-6)), {"volts_per_bit_of_saved_channel_0": float(out["ap"][0]), "expected (probe channel 100)": float(want[0]),
+                                                                                          "value_for_probe_channel_0": float(0.6 / 512 / ga[0])}
+
+
 def _gen_meta(rng):
     lines = {}
     n = int(rng.integers(3, 25))
@@ -484,6 +498,8 @@ def _roundtrip(text, d):
          clause="textual round trip; gains on channel subsets with non uniform tables")
 def b_native(B):
     rng = np.random.default_rng(B.seed)
+    okg, detg = native_gains_of_a_channel_subset(np.random.default_rng(4))
+    B.case("gains_of_a_saved_channel_subset_not_starting_at_0", okg, detail=detg, inputs={"kind": "nonprefix_subset_gains"})
     d = tempfile.mkdtemp(prefix="c09_")
     try:
         for root, _, files in os.walk(FIX):
